@@ -416,11 +416,23 @@ def run_chunk(exe, base_args, group, lo, hi, timeout, workdir, acc, tag):
 
 
 def load_known():
-    if not os.path.exists(KNOWN_FILE):
-        return []
-    with open(KNOWN_FILE) as f:
-        d = json.load(f)
-    return d.get("findings", [])
+    out = []
+    files = [KNOWN_FILE]
+    kd = os.path.join(VERIF, "known")   # per-property fragments during development; merged by lib/mkknown.py
+    if os.path.isdir(kd):
+        files += [os.path.join(kd, f) for f in sorted(os.listdir(kd)) if f.endswith(".json")]
+    seen = set()
+    for p in files:
+        if not os.path.exists(p):
+            continue
+        with open(p) as f:
+            d = json.load(f)
+        for k in d.get("findings", []):
+            if k.get("id") in seen:
+                continue
+            seen.add(k.get("id"))
+            out.append(k)
+    return out
 
 
 def harness_list(exe, tier):
